@@ -245,7 +245,10 @@ class Ctx:
         self.side_conditions: list[str] = []
         self.pos_facts: dict = {}  # canonical primitive poly key -> True (declared positive)
         self.deadline = None
-        self.stats = dict(defs=0, roots=0, funs=0, unfold=0, splits=0, maxterms=0)
+        self.stats = dict(defs=0, roots=0, funs=0, unfold=0, splits=0, maxterms=0, skipped=0, wasted=0)
+        self.guide_env = {}  # name -> float: sample point for the numeric guidance of the zero test
+        self.guide_cache = {}
+        self.guide_seed = 12345
         self.I = self._new("i", "i", real=False)
         self._pi = None
 
@@ -757,28 +760,31 @@ def mk(t):
 
 
 def abstract(p):
-    """Replace p by a def-generator d with body p (hash-consed)."""
+    """Replace p by c * m * d with d a def-generator whose body is the primitive part of p (hash-consed)."""
     C = ctx()
-    # pull out content so that c*body and body share the generator
-    k = ("def", p.key())
+    cont, m, prim = split_content(p)
+    if len(prim.t) <= 1:
+        return p
+    k = ("def", prim.key())
     g = C.by_key.get(k)
     if g is None:
-        gs = p.gens()
+        gs = prim.gens()
         G = C.gens
         lvl = 1 + max(G[x].level for x in gs)
         deps = frozenset().union(*[G[x].deps for x in gs])
-        real = p.is_real()
+        real = prim.is_real()
         pts = {G[x].pt for x in gs} - {None}
         try:
-            pos = real and p.sign_or_none() == 1
+            pos = real and prim.sign_or_none() == 1
         except Undecided:
             pos = False
-        g = C._new("def", f"d{len(C.gens)}", k, data=p, level=lvl, deps=deps, real=real, positive=pos,
+        g = C._new("def", f"d{len(C.gens)}", k, data=prim, level=lvl, deps=deps, real=real, positive=pos,
                    pt=(pts.pop() if len(pts) == 1 else ("mixed" if pts else None)))
         C.stats["defs"] += 1
-        if n_terms(p) > C.stats["maxterms"]:
-            C.stats["maxterms"] = n_terms(p)
-    return Poly({((g.gid, 1),): Fraction(1)})
+        if n_terms(prim) > C.stats["maxterms"]:
+            C.stats["maxterms"] = n_terms(prim)
+    mm, sgn = mono_mul(m, ((g.gid, 1),))
+    return Poly({mm: cont * sgn})
 
 
 def n_terms(p):
@@ -1391,54 +1397,142 @@ def _collect(p, gid):
     return out
 
 
-def _is_zero(p):
+def _guide_value(gid):
+    """Float (complex) value of a generator at the guidance sample point (heuristic only)."""
     C = ctx()
-    stack = [p]
-    while stack:
-        C.check_deadline()
-        p = stack.pop()
-        if isinstance(p, Special):
-            return False
-        if not p.t:
-            continue
-        g = top_gen(p)
-        if g is None:
-            return False  # non-zero rational constant
-        if g.kind in ("var", "fun", "opq"):
-            C.stats["splits"] += 1
-            groups = _collect(p, g.gid)
-            if g.gid == 0:
-                pass
-            for e, t in groups.items():
-                stack.append(Poly(t))
-        elif g.kind == "i":
-            groups = _collect(p, g.gid)
-            for e, t in groups.items():
-                stack.append(Poly(t))
+    v = C.guide_cache.get(gid)
+    if v is not None:
+        return v
+    g = C.gens[gid]
+    import cmath
+    import random as _r
+
+    try:
+        if g.kind == "i":
+            v = 1j
+        elif g.kind == "var":
+            if g.value == "pi":
+                x = _math.pi
+            elif g.value is not None:
+                x = float(g.value)
+            else:
+                x = C.guide_env.get(g.name)
+                if x is None:
+                    rr = _r.Random(f"{C.guide_seed}/{g.name}")
+                    x = 10 ** rr.uniform(-0.7, 0.7) if g.positive else rr.uniform(-0.9, 0.9)
+                    C.guide_env[g.name] = x
+            v = x ** (1.0 / g.L) if g.L != 1 else x
         elif g.kind == "root":
-            C.stats["splits"] += 1
-            groups = _collect(p, g.gid)
-            emin = min(groups)
-            shift = 0
-            if emin < 0:
-                shift = -emin
-            classes = {}
-            for e, t in groups.items():
-                q, r = divmod(e + shift, L)
-                classes.setdefault(r, {})[q] = t
-            for r, byq in classes.items():
-                stack.append(_horner(byq, g.data))
+            b = _guide_poly(g.data.t)
+            v = cmath.exp(cmath.log(b) / L) if not (isinstance(b, float) and b > 0) else b ** (1.0 / L)
         elif g.kind == "def":
-            C.stats["unfold"] += 1
-            groups = _collect(p, g.gid)
-            emin = min(groups)
-            if emin < 0:
-                # multiply through by d**(-emin) (d != 0 is a side condition of the original division)
-                groups = {e - emin: t for e, t in groups.items()}
-            stack.append(_horner(groups, g.data))
+            v = _guide_poly(g.data.t)
+        elif g.kind == "opq":
+            x = C.guide_env.get(g.name)
+            if x is None:
+                rr = _r.Random(f"{C.guide_seed}/{g.name}")
+                x = rr.uniform(-0.9, 0.9)
+                C.guide_env[g.name] = x
+            v = x
+        elif g.kind == "fun":
+            u = _guide_poly(g.data.t)
+            if isinstance(u, complex):
+                f = {"log": cmath.log, "exp": cmath.exp, "tanh": cmath.tanh, "atan": cmath.atan, "sin": cmath.sin,
+                     "cos": cmath.cos, "sinh": cmath.sinh, "cosh": cmath.cosh}.get(g.name)
+                v = f(u) if f else complex(getattr(mpmath, g.name)(u))
+            else:
+                f = {"log": _math.log, "exp": _math.exp, "tanh": _math.tanh, "atan": _math.atan, "sin": _math.sin,
+                     "cos": _math.cos, "erfc": _math.erfc, "erf": _math.erf, "sinh": _math.sinh, "cosh": _math.cosh}[g.name]
+                v = f(u)
         else:
-            raise AssertionError(g.kind)
-    return True
+            v = float("nan")
+    except (ValueError, OverflowError, ZeroDivisionError):
+        v = float("nan")
+    C.guide_cache[gid] = v
+    return v
+
+
+def _guide_poly(t):
+    s = 0.0
+    for m, c in t.items():
+        v = c.numerator / c.denominator
+        for g, e in m:
+            v = v * _guide_value(g) ** e
+        s = s + v
+    return s
+
+
+def _numerically_zero(t):
+    """Heuristic: is the term dict ~0 at the guidance point? (never used as a proof)"""
+    try:
+        s = 0.0
+        a = 0.0
+        for m, c in t.items():
+            v = c.numerator / c.denominator
+            for g, e in m:
+                v = v * _guide_value(g) ** e
+            s = s + v
+            a = a + abs(v)
+        if a != a or s != s:
+            return False
+        return abs(s) <= 1e-9 * a
+    except (OverflowError, ZeroDivisionError, ValueError):
+        return False
+
+
+def _is_zero(p):
+    """Recursive exact zero test with numeric guidance (the guidance only chooses between sound steps)."""
+    C = ctx()
+    C.check_deadline()
+    if isinstance(p, Special):
+        return False
+    if not p.t:
+        return True
+    g = top_gen(p)
+    if g is None:
+        return False  # non-zero rational constant
+    groups = _collect(p, g.gid)
+    if g.kind in ("var", "fun", "opq", "i"):
+        C.stats["splits"] += 1
+        # free atom: all coefficients must vanish; test the numerically suspicious ones first
+        items = sorted(groups.values(), key=len)
+        for t in items:
+            if not _numerically_zero(t):
+                return False
+        for t in items:
+            if not _is_zero(Poly(t)):
+                return False
+        return True
+    # rewritable generator (root / def): first try to treat it as a free atom when the guidance says every
+    # coefficient vanishes on its own (cancellation at the higher level), otherwise rewrite
+    if len(groups) >= 1 and all(_numerically_zero(t) for t in groups.values()):
+        ok = True
+        for t in sorted(groups.values(), key=len):
+            if not _is_zero(Poly(t)):
+                ok = False
+                break
+        if ok:
+            C.stats["skipped"] += 1
+            return True
+        C.stats["wasted"] += 1
+    emin = min(groups)
+    if g.kind == "root":
+        C.stats["splits"] += 1
+        shift = -emin if emin < 0 else 0
+        classes = {}
+        for e, t in groups.items():
+            q, r = divmod(e + shift, L)
+            classes.setdefault(r, {})[q] = t
+        for r, byq in classes.items():
+            if not _is_zero(_horner(byq, g.data)):
+                return False
+        return True
+    if g.kind == "def":
+        C.stats["unfold"] += 1
+        if emin < 0:
+            groups = {e - emin: t for e, t in groups.items()}
+        return _is_zero(_horner(groups, g.data))
+    raise AssertionError(g.kind)
 
 
 def _horner(byq, base):
